@@ -9,11 +9,11 @@ import Uniflow.Spec.Query
 namespace Uniflow.Query
 open Uniflow.Value Uniflow.Store
 
-/-- the direction of a sort field: its order operand as an integer (`1` ascending, `-1` descending) -/
-def refDirection : Val → Int
-  | .int _ v => v
-  | .uint _ v => v
-  | _ => 1
+/-- the direction of a sort field: its order operand decoded as a Go `int` by the value codec, `1` when it does not
+decode (`Store.dirOf`: integers as they are, unsigned ones in two's complement, floats truncated, numeric strings parsed;
+`C10.dirOf_is_int_decoder` ties it to the codec model). Negative = descending, positive = ascending; a direction that
+decodes to 0 (`0`, `0.0`, `0.9`, `"0"`) makes every pair tie – excluded by `directed`. -/
+def refDirection (v : Val) : Int := dirOf v
 
 /-- the comparator of a sort specification `{field: direction, …}`: the first field on which the two documents differ
 decides, by `Compare` of the field values (an absent field compares as nil) times the direction; `≤ 0` = "may come first" -/
